@@ -68,6 +68,13 @@ func (t *Teamserver) LinkAdd(ParentAgent *agent.Agent, LinkAgent *agent.Agent) e
 	var ParentAgentID, _ = strconv.ParseInt(ParentAgent.NameID, 16, 64)
 	var LinkAgentID,   _ = strconv.ParseInt(LinkAgent.NameID, 16, 64)
 
+	// an agent has one parent: the stored link to a previous parent is replaced
+	if OldParentID, err := t.DB.ParentOf(int(LinkAgentID)); err == nil && OldParentID != int(ParentAgentID) {
+		if err = t.DB.LinkRemove(OldParentID, int(LinkAgentID)); err != nil {
+			logger.Error("Could not remove old link from database: " + err.Error())
+		}
+	}
+
 	err := t.DB.LinkAdd(int(ParentAgentID), int(LinkAgentID))
 	if err != nil {
 		logger.Error("Could not add link to database: " + err.Error())
